@@ -242,9 +242,11 @@ void Image::load(FILE* f) {
       new_channel_width = 8;
     }
 
+    // Grayscale data is expanded in place after reading, so the buffer must be
+    // large enough for the expanded (3- or 4-channel) image
     DataPtrs new_data;
     size_t channels_factor = (format == Format::COLOR_PPM ? 3 : 1) + (new_has_alpha ? 1 : 0);
-    new_data.raw = malloc(new_width * new_height * channels_factor * (new_channel_width / 8));
+    new_data.raw = malloc(new_width * new_height * new_depth * (new_channel_width / 8));
     if (!new_data.raw) {
       throw bad_alloc();
     }
@@ -271,44 +273,30 @@ void Image::load(FILE* f) {
     // do so, we copy the gray channel to all color channels starting from the
     // end of the image (so we won't incorrectly overwrite unexpanded data).
     if (format == Format::GRAYSCALE_PPM) {
-      size_t dest_stride = this->has_alpha ? 4 : 3;
-      size_t src_stride = this->has_alpha ? 2 : 1;
-      for (ssize_t y = this->height - 1; y >= 0; y--) {
-        for (ssize_t x = this->width - 1; x >= 0; x--) {
-          if (this->channel_width == 8) {
-            uint8_t v = this->data.as8[y * this->width * src_stride + x];
-            this->data.as8[(y * this->width + x) * dest_stride + 0] = v;
-            this->data.as8[(y * this->width + x) * dest_stride + 1] = v;
-            this->data.as8[(y * this->width + x) * dest_stride + 2] = v;
-            if (this->has_alpha) {
-              this->data.as8[(y * this->width + x) * dest_stride + 3] = this->data.as8[y * this->width * src_stride + x + 1];
-            }
-          } else if (this->channel_width == 16) {
-            uint8_t v = this->data.as16[y * this->width * src_stride + x];
-            this->data.as16[(y * this->width + x) * dest_stride + 0] = v;
-            this->data.as16[(y * this->width + x) * dest_stride + 1] = v;
-            this->data.as16[(y * this->width + x) * dest_stride + 2] = v;
-            if (this->has_alpha) {
-              this->data.as16[(y * this->width + x) * dest_stride + 3] = this->data.as16[y * this->width * src_stride + x + 1];
-            }
-          } else if (this->channel_width == 32) {
-            uint8_t v = this->data.as32[y * this->width * src_stride + x];
-            this->data.as32[(y * this->width + x) * dest_stride + 0] = v;
-            this->data.as32[(y * this->width + x) * dest_stride + 1] = v;
-            this->data.as32[(y * this->width + x) * dest_stride + 2] = v;
-            if (this->has_alpha) {
-              this->data.as32[(y * this->width + x) * dest_stride + 3] = this->data.as32[y * this->width * src_stride + x + 1];
-            }
-          } else if (this->channel_width == 64) {
-            uint8_t v = this->data.as64[y * this->width * src_stride + x];
-            this->data.as64[(y * this->width + x) * dest_stride + 0] = v;
-            this->data.as64[(y * this->width + x) * dest_stride + 1] = v;
-            this->data.as64[(y * this->width + x) * dest_stride + 2] = v;
-            if (this->has_alpha) {
-              this->data.as64[(y * this->width + x) * dest_stride + 3] = this->data.as64[y * this->width * src_stride + x + 1];
-            }
+      auto expand = [this](auto* px) {
+        size_t dest_stride = this->has_alpha ? 4 : 3;
+        size_t src_stride = this->has_alpha ? 2 : 1;
+        for (size_t z = this->width * this->height; z-- > 0;) {
+          // Read both source channels before writing; for the first pixel the
+          // source and destination overlap
+          auto v = px[z * src_stride];
+          auto a = px[z * src_stride + src_stride - 1];
+          px[z * dest_stride + 0] = v;
+          px[z * dest_stride + 1] = v;
+          px[z * dest_stride + 2] = v;
+          if (this->has_alpha) {
+            px[z * dest_stride + 3] = a;
           }
         }
+      };
+      if (this->channel_width == 8) {
+        expand(this->data.as8);
+      } else if (this->channel_width == 16) {
+        expand(this->data.as16);
+      } else if (this->channel_width == 32) {
+        expand(this->data.as32);
+      } else if (this->channel_width == 64) {
+        expand(this->data.as64);
       }
     }
 
